@@ -71,14 +71,15 @@ def _z3_val(v):
     return ("other", str(v))
 
 
-def _solve_cvc5(smt2, timeout_ms, want_model, seed=0):
+def _solve_cvc5(smt2, timeout_ms, want_model, seed=0, fmf=False):
     import cvc5
     slv = cvc5.Solver()
     slv.setOption("tlimit-per", str(int(timeout_ms)))
     slv.setOption("strings-exp", "true")
+    if fmf or want_model:
+        slv.setOption("strings-fmf", "true")
     if want_model:
         slv.setOption("produce-models", "true")
-        slv.setOption("strings-fmf", "true")
     if seed:
         slv.setOption("seed", str(int(seed) % 100000))
     slv.setLogic("ALL")
@@ -133,6 +134,8 @@ def _task(args):
     try:
         if solver == "z3":
             r = _solve_z3(smt2, timeout_ms, want_model, seed)
+        elif solver == "cvc5-fmf":
+            r = _solve_cvc5(smt2, timeout_ms, want_model, seed, fmf=True)
         else:
             r = _solve_cvc5(smt2, timeout_ms, want_model, seed)
         return (idx, solver) + r
@@ -152,16 +155,21 @@ def _child(task, conn):
         conn.close()
 
 
-def run_tasks(tasks, jobs, grace_s=3.0):
+def run_tasks(tasks, jobs, grace_s=3.0, cancel_siblings=False):
     """Run solver tasks in forked children, at most `jobs` at a time, each with a hard kill
-    at its own timeout + grace.  Yields (idx, solver, status, seconds, model)."""
+    at its own timeout + grace.  Yields (idx, solver, status, seconds, model).
+    With cancel_siblings, a sat/unsat answer for an obligation stops the other solvers still
+    working on the same obligation."""
     from multiprocessing.connection import wait
     ctx = mp.get_context("fork")
     queue = list(tasks)[::-1]
     running = {}
+    decided = set()
     while queue or running:
         while queue and len(running) < jobs:
             t = queue.pop()
+            if t[0] in decided:
+                continue
             parent, child = ctx.Pipe(duplex=False)
             p = ctx.Process(target=_child, args=(t, child), daemon=True)
             p.start()
@@ -170,6 +178,8 @@ def run_tasks(tasks, jobs, grace_s=3.0):
         ready = wait(list(running.keys()), timeout=0.25)
         now = time.time()
         for conn in list(running.keys()):
+            if conn not in running:
+                continue
             p, t, deadline, t0 = running[conn]
             if conn in ready:
                 try:
@@ -179,6 +189,17 @@ def run_tasks(tasks, jobs, grace_s=3.0):
                 conn.close()
                 p.join(timeout=1)
                 del running[conn]
+                if cancel_siblings and res[2] in ("sat", "unsat"):
+                    decided.add(res[0])
+                    for c2 in list(running.keys()):
+                        p2, t2, _, _ = running[c2]
+                        if t2[0] == res[0]:
+                            p2.terminate()
+                            p2.join(timeout=1)
+                            if p2.is_alive():
+                                p2.kill()
+                            c2.close()
+                            del running[c2]
                 yield res
             elif now > deadline:
                 p.terminate()
@@ -201,99 +222,81 @@ class Result:
         self.log = []
 
 
-def discharge(obligations, timeout_s=20, both=False, jobs=None, seed=0, progress=None):
-    """Discharge obligations; returns list of Result aligned with the input.
+def solve_smt(obs, timeout_s=20, both=False, jobs=None, seed=0):
+    """obs: list of dicts {smt2, strs, trivial}.  Returns list of Result.
 
-    Strategy: (1) string-free obligations are tried in-process with z3 (fast path);
-    (2) everything left goes to a process pool: string obligations to cvc5 first then z3,
-    others to z3 then cvc5; (3) with both=True every obligation is sent to both solvers and a
-    sat/unsat disagreement is reported as status 'disagree'.
-    """
+    stage 0  trivial goals (simplifier) and string-free obligations in process with z3
+    stage 1  first-choice solver with a short budget (cvc5 for strings, z3 otherwise)
+    stage 2  everything still open: cvc5, cvc5 with finite-model finding for strings, z3 -- in parallel,
+             full budget; `both` (thorough tier) sends every obligation through stage 2 as well and
+             reports a sat/unsat disagreement as status 'disagree'
+    stage 3  models for sat/unknown obligations (for replay)"""
     jobs = jobs or min(16, os.cpu_count() or 4)
-    results = [Result() for _ in obligations]
-    smt = [None] * len(obligations)
-    strs = [False] * len(obligations)
+    results = [Result() for _ in obs]
     pending = []
-    for i, ob in enumerate(obligations):
-        strs[i] = has_strings(ob.constraints, ob.goal)
-        if not strs[i] and not both:
+    for i, d in enumerate(obs):
+        if d.get("trivial"):
+            results[i].status, results[i].solver = "unsat", "simplifier"
+            continue
+        if not d["strs"]:
             s = z3.Solver()
-            s.set("timeout", 2000)
-            for c in ob.constraints:
-                s.add(c)
-            s.add(z3.Not(ob.goal))
-            t0 = time.time()
-            r = s.check()
-            dt = time.time() - t0
+            s.set("timeout", 3000)
+            try:
+                s.from_string(d["smt2"])
+                t0 = time.time()
+                r = s.check()
+                dt = time.time() - t0
+            except Exception:
+                r, dt = z3.unknown, 0.0
             results[i].log.append(("z3-inproc", str(r), round(dt, 4)))
             if r == z3.unsat:
-                results[i].status = "unsat"
-                results[i].solver = "z3"
-                results[i].time = dt
-                continue
+                results[i].status, results[i].solver, results[i].time = "unsat", "z3", dt
+                if not both:
+                    continue
         pending.append(i)
-    if not pending:
-        return results
-    for i in pending:
-        smt[i] = to_smt2(obligations[i].constraints, obligations[i].goal)
 
-    def first_solver(i):
-        return "cvc5" if strs[i] else "z3"
-
-    def other(s):
-        return "z3" if s == "cvc5" else "cvc5"
-
-    tasks = []
-    for i in pending:
-        fs = first_solver(i)
-        tasks.append((i, smt[i], fs, timeout_s * 1000, False, seed))
-        if both:
-            tasks.append((i, smt[i], other(fs), timeout_s * 1000, False, seed))
-    if True:
-        retry = []
-        verdicts = {}
-        for idx, solver, status, dt, model in run_tasks(tasks, jobs):
-            results[idx].log.append((solver, status, round(dt, 3)))
-            verdicts.setdefault(idx, {})[solver] = (status, dt)
-            if progress:
-                progress(idx, solver, status, dt)
-        for idx in pending:
-            v = verdicts.get(idx, {})
-            stats = {s_: x[0] for s_, x in v.items()}
-            if both and "sat" in stats.values() and "unsat" in stats.values():
+    def record(idx, solver, status, dt):
+        results[idx].log.append((solver, status, round(dt, 3)))
+        cur = results[idx].status
+        if status in ("sat", "unsat"):
+            if cur in ("sat", "unsat") and cur != status:
                 results[idx].status = "disagree"
-                continue
-            if "unsat" in stats.values():
-                sv = [s_ for s_ in v if v[s_][0] == "unsat"][0]
-                results[idx].status, results[idx].solver, results[idx].time = "unsat", sv, v[sv][1]
-            elif "sat" in stats.values():
-                sv = [s_ for s_ in v if v[s_][0] == "sat"][0]
-                results[idx].status, results[idx].solver, results[idx].time = "sat", sv, v[sv][1]
-            elif not both:
-                retry.append(idx)
-            else:
-                results[idx].status = "unknown"
-        # second solver for unknowns
-        tasks2 = [(i, smt[i], other(first_solver(i)), timeout_s * 1000, False, seed) for i in retry]
-        for idx, solver, status, dt, model in run_tasks(tasks2, jobs):
-            results[idx].log.append((solver, status, round(dt, 3)))
-            if status in ("unsat", "sat"):
-                results[idx].status, results[idx].solver, results[idx].time = status, solver, dt
-            else:
-                results[idx].status = "unknown"
-        # models for sat / unknown obligations (for replay)
-        need = [i for i in pending if results[i].status in ("sat", "unknown")]
-        tasks3 = []
-        mt = min(timeout_s, 15) * 1000
-        for i in need:
-            tasks3.append((i, smt[i], "z3", mt, True, seed))
-            tasks3.append((i, smt[i], "cvc5", mt, True, seed))
-        for idx, solver, status, dt, model in run_tasks(tasks3, jobs):
-            results[idx].log.append((solver + "-model", status, round(dt, 3)))
-            if status == "unsat" and results[idx].status == "unknown":
-                results[idx].status, results[idx].solver, results[idx].time = "unsat", solver + "(fmf)", dt
-            if status == "sat" and model is not None and results[idx].model is None and results[idx].status != "unsat":
-                results[idx].model = model
-                results[idx].status = "sat"
-                results[idx].solver = results[idx].solver or solver
+            elif cur not in ("disagree",):
+                if cur != status:
+                    results[idx].status, results[idx].solver, results[idx].time = status, solver, dt
+
+    short = min(5, timeout_s) * 1000
+    tasks = [(i, obs[i]["smt2"], "cvc5" if obs[i]["strs"] else "z3", short, False, seed)
+             for i in pending if results[i].status == "unknown"]
+    for idx, solver, status, dt, model in run_tasks(tasks, jobs):
+        record(idx, solver, status, dt)
+    open_ = [i for i in pending if results[i].status == "unknown" or both]
+    tasks = []
+    for i in open_:
+        for sv in (("cvc5", "cvc5-fmf", "z3") if obs[i]["strs"] else ("z3", "cvc5")):
+            tasks.append((i, obs[i]["smt2"], sv, timeout_s * 1000, False, seed))
+    for idx, solver, status, dt, model in run_tasks(tasks, jobs, cancel_siblings=not both):
+        record(idx, solver, status, dt)
+    need = [i for i in pending if results[i].status in ("sat", "unknown")]
+    mt = min(timeout_s, 15) * 1000
+    tasks = []
+    for i in need:
+        tasks.append((i, obs[i]["smt2"], "z3", mt, True, seed))
+        tasks.append((i, obs[i]["smt2"], "cvc5", mt, True, seed))
+    for idx, solver, status, dt, model in run_tasks(tasks, jobs):
+        results[idx].log.append((solver + "-model", status, round(dt, 3)))
+        if status == "sat" and model is not None and results[idx].model is None and results[idx].status != "unsat":
+            results[idx].model = model
+            results[idx].status = "sat"
+            results[idx].solver = results[idx].solver or solver
     return results
+
+
+def discharge(obligations, timeout_s=20, both=False, jobs=None, seed=0, progress=None):
+    """convenience wrapper over solve_smt for in-memory Obligation objects"""
+    obs = []
+    for ob in obligations:
+        trivial = z3.is_true(z3.simplify(ob.goal))
+        obs.append({"smt2": None if trivial else to_smt2(ob.constraints, ob.goal),
+                    "strs": has_strings(ob.constraints, ob.goal), "trivial": trivial})
+    return solve_smt(obs, timeout_s, both, jobs, seed)
